@@ -29,7 +29,7 @@ pub fn gen_conc(seed: u64, property: &str) -> Plan {
     let backend = rng.pick(&["fd", "fd", "mmap"]).to_string();
     let n_threads = rng.range(2, 4) as usize;
     let mut ids = IdGen(0);
-    let open = Op { id: ids.next(), kind: OpKind::Open { inst: 0, key: Some("k".into()), dir: "d".into(), alo, fsync: fsync.clone() } };
+    let open = Op { id: ids.next(), kind: OpKind::Open { inst: 0, key: Some("k".into()), dir: "d".into(), alo, fsync: fsync.clone(), via_env: false } };
     // some entries already present (and partly consumed) before the threads start
     let mut pre = vec![open];
     for _ in 0..rng.below(4) {
@@ -94,7 +94,7 @@ pub fn gen_conc(seed: u64, property: &str) -> Plan {
     // independent pass: forget every cursor, read the physical log
     let mut v = vec![
         Op { id: ids.next(), kind: OpKind::RemoveFile { path: "d/k/read_offset_idx_index.db".into() } },
-        Op { id: ids.next(), kind: OpKind::Open { inst: 0, key: Some("k".into()), dir: "d".into(), alo: 0, fsync } },
+        Op { id: ids.next(), kind: OpKind::Open { inst: 0, key: Some("k".into()), dir: "d".into(), alo: 0, fsync, via_env: false } },
     ];
     for t in 0..n_topics as u32 {
         v.push(Op { id: ids.next(), kind: OpKind::Drain { inst: 0, topic: t, mode: "next".into(), max: 8000 } });
